@@ -1,2 +1,142 @@
-(* C03 — placeholder until the proofs land (statements are added only when proved). *)
-From BWPlanner Require Import Terms.
+(* C03 — SELECT returns exactly the solutions of its graph pattern (conjunctive fragment).
+   Model: coq/Planner/{Terms,Rows,Clause,Store,Fetch,Plan}.v follow bql/planner/{planner,data_access}.go and
+   bql/table/table.go; `current ks strlit` is the tree with this family's repairs (F9 ecd016d, F14 b974631, F15 cd0ad98,
+   Foid 80d28a9); `original` the tree before them.  Specification: PatternSpec.v.
+   Layered theorems (full statements over all clauses / triples / graphs); the composition over whole patterns
+   (C03_select_is_solutions) is listed as OPEN in design-notes/C03.md and is only covered by the correspondence run. *)
+From Coq Require Import List ZArith NArith Bool.
+Import ListNotations.
+From BWPlanner Require Import Terms Rows Clause Store Fetch Plan PatternSpec Current Corr Witnesses RowsProofs FetchProofs PlanProofs.
+
+(* ---- layer 1 (tripleToRow + shouldIgnoreTriple = the declarative reading of one clause on one triple).
+   xval opt x t: the part of t that extractor x denotes (NULL inside an OPTIONAL clause when it does not apply).
+   Domain: binders_checked = the clause has no ID alias on a node-valued object (that cell is written without the
+   validBinding test; see C03_oid_unchecked_refuted). *)
+Theorem C03_clause_row_sound_partial :
+  forall e c t r, fixoid e = true -> binders_checked (binders c) t ->
+    row_of e c t = Ok (Some r) ->
+    should_ignore c t = false /\
+    (forall k x, In (k, x) (binders c) -> exists v, xval (c_opt c) x t = Some v /\ get r k = Some v) /\
+    (forall k, get r k <> None -> In k (map fst (binders c))).
+Proof. exact clause_row_sound. Qed.
+Print Assumptions C03_clause_row_sound_partial.
+
+(* ... and every assignment mu that gives each binding of the clause the corresponding part of the triple is an extension
+   of the row the planner builds: no match is lost, one value per binding *)
+Theorem C03_clause_row_complete_partial :
+  forall e c t mu, fixoid e = true -> binders_checked (binders c) t ->
+    should_ignore c t = false ->
+    (forall k x, In (k, x) (binders c) -> exists v, xval (c_opt c) x t = Some v /\ get mu k = Some v) ->
+    exists r, row_of e c t = Ok (Some r) /\ row_matches c t r /\ sub_row r mu.
+Proof. exact clause_row_complete. Qed.
+Print Assumptions C03_clause_row_complete_partial.
+
+(* shouldIgnoreTriple = the id / kind / interval part of the clause, for all clauses and triples (full) *)
+Theorem C03_should_ignore_spec :
+  forall c t,
+    should_ignore c t = false <->
+    (id_part_ok (cPID c) (cPTemporal c) (cPAncB c) (cPLo c) (cPUp c) (tpred t) /\
+     (forall p, tobj t = OPred p -> id_part_ok (cOID c) (cOTemporal c) (cOAncB c) (cOLo c) (cOUp c) p)).
+Proof. exact should_ignore_false. Qed.
+Print Assumptions C03_should_ignore_spec.
+
+(* extractions: ID / TYPE / AT / AS cells are the parts of the matched triple; an extraction that does not apply yields no
+   row in a non-optional clause (xval false = xspec) *)
+Theorem C03_extractions :
+  forall e x t, fixoid e = true -> oid_checked x t ->
+    extract e false x t = match xspec x t with Some v => XVal v | None => XSkip end.
+Proof. exact extract_xspec. Qed.
+Print Assumptions C03_extractions.
+
+(* ---- layer 2 (simpleFetch, all eight driver shapes): the rows are, graph by graph, one row per stored triple whose fixed
+   components match (fixed_match: the lookup's specification), computed from the triple the driver rebuilds.
+   Domain: clauses without an ID alias on the object. *)
+Theorem C03_fetch_spec_partial :
+  forall e gs c lo0, fixoid e = true -> cOIdA c = [] ->
+    simple_fetch e gs c lo0 =
+    Ok (match cS c, cP c, cO c with
+        | Some s, Some p, Some o => flat_map (fetch_rows_spo e c (mkTriple s p o)) gs
+        | _, _, _ => flat_map (fetch_rows e c (update_time_bounds lo0 c)) gs
+        end).
+Proof. intros. apply fetch_spec; assumption. Qed.
+Print Assumptions C03_fetch_spec_partial.
+
+(* a fetch never fails and never panics on that domain *)
+Theorem C03_row_total_partial :
+  forall e c t, fixoid e = true -> binders_checked (binders c) t -> exists o, row_of e c t = Ok o.
+Proof. exact row_of_total. Qed.
+Print Assumptions C03_row_total_partial.
+
+(* the domains are inhabited: the second clause of the join witness has no object ID alias, and on it the fetch really
+   produces a row *)
+Example C03_domain_example :
+  exists c gs, In c (q_clauses (w_join_kind (current true false))) /\ gs = q_graphs (w_join_kind (current true false)) /\
+    cOIdA c = [] /\ (forall t, binders_checked (binders c) t) /\
+    exists r rows, simple_fetch (current true false) gs c (mkLopts None None) = Ok (r :: rows).
+Proof.
+  eexists (nth 0 (q_clauses (w_join_kind (current true false))) _), _.
+  split; [left; reflexivity|]. split; [reflexivity|]. split; [reflexivity|].
+  split; [intros t; apply no_oid_alias_checked; reflexivity|].
+  vm_compute. eexists _, _. reflexivity.
+  Unshelve. exact (nth 0 (q_clauses (w_kind (current true false))) (mkClause false None [] [] [] [] None [] [] [] [] [] [] None None [] [] false None [] [] [] [] [] [] [] None None [] [] false)).
+Qed.
+
+(* ---- refutations: the full statement "the rows are exactly the solutions, for every conjunctive pattern" is false of the
+   faithful model; each witness is replayed on the real planner by checks/c03.py (corpus/C03/witnesses.jsonl). *)
+
+(* a fully specified clause after clauses that bound something: AppendTable refuses (error), although the pattern has a
+   solution *)
+Theorem C03_spec3_refuted :
+  exists q, q_cfg q = current true false /\ run_model q = Err EAppend /\ run_spec q <> [].
+Proof. exists (w_spec3_after_bound (current true false)). vm_compute. repeat split; discriminate. Qed.
+Print Assumptions C03_spec3_refuted.
+
+(* an interval clause `"t"@[lb,ub]` without anchor binding: two rows for ONE assignment of the bindings *)
+Theorem C03_bound_dup_refuted :
+  exists q outs x, q_cfg q = current true false /\ length (q_graphs q) = 1%nat /\ run_model q = Ok (outs, [x; x]).
+Proof. exists (w_interval_dup (current true false)). vm_compute. eexists _, _. repeat split. Qed.
+Print Assumptions C03_bound_dup_refuted.
+
+(* an interval clause without any binding is dropped as "no rows": a pattern whose two clauses both match returns nothing *)
+Theorem C03_interval_nobinding_refuted :
+  exists q outs, q_cfg q = current true false /\ run_model q = Ok (outs, []) /\ run_spec q <> [].
+Proof. exists (w_interval_nobinding (current true false)). vm_compute. eexists. repeat split; discriminate. Qed.
+Print Assumptions C03_interval_nobinding_refuted.
+
+(* `?s "p"@[] ?o ID ?s`: the ID cell overwrites the subject cell without the validBinding test: a row that is no solution
+   (pinned by TestPlannerQuery's `?gc ID ?gc`, therefore a finding and not a repair) *)
+Theorem C03_oid_unchecked_refuted :
+  exists q outs row, q_cfg q = current true false /\ run_model q = Ok (outs, [row]) /\ run_spec q = [].
+Proof. exists (w_oid_node_unchecked (current true false)). vm_compute. eexists _, _. repeat split. Qed.
+Print Assumptions C03_oid_unchecked_refuted.
+
+(* ---- the defects that were repaired: false of the ORIGINAL tree's model (witnesses replayed on the real planner before the
+   repair, see evidence history), true of the current one on the same witness *)
+Theorem C03_join_kind_original_refuted :
+  exists q, (exists outs row, run_model (q (original false true)) = Ok (outs, [row]) /\ run_spec (q (original false true)) = []) /\
+            (exists outs, run_model (q (current true false)) = Ok (outs, [])).
+Proof. exists w_join_kind. vm_compute. split; [eexists _, _; split; reflexivity|eexists; reflexivity]. Qed.
+Print Assumptions C03_join_kind_original_refuted.
+
+Theorem C03_kind_original_refuted :
+  exists q, (exists outs row, run_model (q (original false true)) = Ok (outs, [row]) /\ run_spec (q (original false true)) = []) /\
+            (exists outs, run_model (q (current true false)) = Ok (outs, [])).
+Proof. exists w_kind. vm_compute. split; [eexists _, _; split; reflexivity|eexists; reflexivity]. Qed.
+Print Assumptions C03_kind_original_refuted.
+
+Theorem C03_bound_alias_nil_original_refuted :
+  exists q, run_model (q (original false true)) = Panic SiteBoundsRow /\
+            (exists res, run_model (q (current true false)) = Ok res).
+Proof. exists w_bound_alias_nil. vm_compute. split; [reflexivity|eexists; reflexivity]. Qed.
+Print Assumptions C03_bound_alias_nil_original_refuted.
+
+Theorem C03_oid_literal_original_refuted :
+  exists q, run_model (q (original false true)) = Err EObjId /\
+            (exists outs row, run_model (q (current true false)) = Ok (outs, [row]) /\ length (run_spec (q (current true false))) = 1%nat).
+Proof. exists w_oid_literal_error. vm_compute. split; [reflexivity|eexists _, _; split; reflexivity]. Qed.
+Print Assumptions C03_oid_literal_original_refuted.
+
+Theorem C03_string_object_original_refuted :
+  exists q, run_model (q (original false true)) = Panic SiteStrObject.
+Proof. exists w_string_cell_object. vm_compute. reflexivity. Qed.
+Print Assumptions C03_string_object_original_refuted.
